@@ -34,6 +34,7 @@ theorem wfr_mono {rk : Nat → Nat} {K : Nat} : ∀ (p : P) {k k' : Nat}, k ≤ 
   | convIf _ a ih => intro k k' h hw; exact ih h hw
   | ignore a ih => intro k k' h hw; exact ih h hw
   | named a ih => intro k k' h hw; exact ih h hw
+  | map _ a ih => intro k k' h hw; exact ih h hw
   | _ => intro k k' h hw; trivial
 
 theorem wfr_ite {rk : Nat → Nat} {K : Nat} (p : P) {k : Nat} (b : Bool) (hk : k ≤ K) (hw : WFr rk K p k) :
@@ -68,6 +69,7 @@ theorem wfr_desugar {rk : Nat → Nat} {K k : Nat} {p : P} (hs : IsSugar p) (hk 
     simpa using hc1
   case uint m => simp [desugar, WFr, nullable, digits]
   case int m => simp [desugar, WFr, nullable, digits]
+  case float => simp [desugar, WFr, nullable, digits]
 
 /-- the claim at one input length, one rank bound and one size bound -/
 def TotAt (g : G) (rk : Nat → Nat) (K : Nat) (n k m : Nat) : Prop :=
@@ -238,6 +240,12 @@ theorem parse_total_rec (g : G) (rk : Nat → Nat) (K : Nat) (hg : GWF g rk K) :
       cases x with
       | ok v r => exact ⟨_, .namedOk hx⟩
       | err ft => exact ⟨_, .namedErr hx⟩
+    | map mm a =>
+      simp only [size] at hp
+      obtain ⟨x, hx⟩ := sub a (by omega) hw sk hsk inp (by omega)
+      cases x with
+      | ok v r => exact ⟨_, .mapOk hx⟩
+      | err ft => exact ⟨_, .mapErr hx⟩
     | ref i =>
       -- a smaller rank bound, the rule's body of whatever size, the same input
       have hi : rk i < k := hw
@@ -248,6 +256,7 @@ theorem parse_total_rec (g : G) (rk : Nat → Nat) (K : Nat) (hg : GWF g rk K) :
     | list o a b c => exact sugarCase trivial
     | uint m => exact sugarCase trivial
     | int m => exact sugarCase trivial
+    | float => exact sugarCase trivial
 
 theorem parse_total_wf (g : G) (rk : Nat → Nat) (K : Nat) (hg : GWF g rk K) (p : P) (hw : WFr rk K p K)
     (sk : Sk) (hsk : SkWF sk) (inp : List Nat) : ∃ x, Derives g p sk inp x :=
